@@ -58,6 +58,9 @@ var truthValues = []truthVal{
 	{"ptr", &vStruct{Name: "p"}, 1, "ptr"}, {"nil_ptr", nilStructPtr, -1, "nilptr"}, {"nil_intptr", (*int)(nil), -1, "nilptr"},
 	{"negzero", math.Copysign(0, -1), -1, "float64"}, {"negzero32", float32(math.Copysign(0, -1)), -1, "float32"},
 	{"nan", math.NaN(), 0, "nan"},
+	// values whose string form has more than one spelling (exponent notation, sign, width)
+	{"float_small", 0.00005, 1, "float64"}, {"float_huge", 1e21, 1, "float64"}, {"float_frac", 1234567.125, 1, "float64"},
+	{"uint64_max", uint64(math.MaxUint64), 1, "uint64"}, {"int64_min", int64(math.MinInt64), 1, "int64"}, {"float32_third", float32(1) / 3, 1, "float32"},
 }
 
 func truthByName(n string) truthVal {
